@@ -92,6 +92,94 @@ fn frag_kind(f: &[u8]) -> (bool, bool) {
     (d == 0b11000 || d == 0b11100, d == 0b11000)
 }
 
+/// Independent reading of a non-fragment 6LoWPAN frame as far as C10 needs it: the length of the 802.15.4 header
+/// and of the IPHC header (from the mode bits alone), and -- when the next header is carried inline and says
+/// ICMPv6 -- whether the options of a neighbour-discovery message tile it exactly (every length non-zero, the
+/// last option ending at the end of the frame).  None: not such a frame.
+fn ndisc_options_ok(f: &[u8]) -> Option<bool> {
+    if f.len() < 3 {
+        return None;
+    }
+    let fc = u16::from_le_bytes([f[0], f[1]]);
+    let dam = (fc >> 10) & 3;
+    let sam = (fc >> 14) & 3;
+    let pidc = (fc >> 6) & 1;
+    let mut l = 3;
+    if dam != 0 {
+        l += 2 + if dam == 2 { 2 } else { 8 };
+    }
+    if sam != 0 {
+        l += (if pidc == 0 { 2 } else { 0 }) + if sam == 2 { 2 } else { 8 };
+    }
+    if f.len() < l + 2 || f[l] >> 5 != 0b011 {
+        return None; // not IPHC (a fragment, or something else)
+    }
+    let (b0, b1) = (f[l], f[l + 1]);
+    let mut h = l + 2;
+    if b1 & 0x80 != 0 {
+        h += 1; // context identifier extension
+    }
+    h += match (b0 >> 3) & 3 {
+        0 => 4,
+        1 => 3,
+        2 => 1,
+        _ => 0,
+    };
+    let nh_inline = b0 & 0x04 == 0;
+    let nh_at = h;
+    if nh_inline {
+        h += 1;
+    }
+    if b0 & 3 == 0 {
+        h += 1; // hop limit inline
+    }
+    let sac = b1 & 0x40 != 0;
+    h += match ((b1 >> 4) & 3, sac) {
+        (0, false) => 16,
+        (0, true) => 0,
+        (1, _) => 8,
+        (2, _) => 2,
+        _ => 0,
+    };
+    let m = b1 & 0x08 != 0;
+    let dac = b1 & 0x04 != 0;
+    h += match (m, dac, b1 & 3) {
+        (false, false, 0) => 16,
+        (false, _, 1) => 8,
+        (false, _, 2) => 2,
+        (false, _, 3) => 0,
+        (false, true, 0) => 0,
+        (true, false, 0) => 16,
+        (true, false, 1) => 6,
+        (true, false, 2) => 4,
+        (true, false, 3) => 1,
+        (true, true, 0) => 6,
+        _ => return None,
+    };
+    if !nh_inline || f.len() <= h || f[nh_at] != 58 {
+        return None;
+    }
+    let icmp = &f[h..];
+    let first = match icmp[0] {
+        133 => 8,
+        134 => 16,
+        135 | 136 => 24,
+        137 => 40,
+        _ => return None,
+    };
+    if icmp.len() < first {
+        return Some(false);
+    }
+    let mut o = first;
+    while o < icmp.len() {
+        if o + 2 > icmp.len() || icmp[o + 1] == 0 || o + 8 * icmp[o + 1] as usize > icmp.len() {
+            return Some(false);
+        }
+        o += 8 * icmp[o + 1] as usize;
+    }
+    Some(true)
+}
+
 pub fn replay(args: &Args) {
     let scn = read_ndjson(&args.str("sched", ""));
     let mut t = Trace::create(&args.str("out", ""));
@@ -120,6 +208,8 @@ pub fn replay(args: &Args) {
         let mut b = node(2, aclass, dport, 2000 + k as u64);
         let mut now = 0i64;
         let mut maxframe = 0usize;
+        let mut nd_seen = 0usize;
+        let mut nd_bad = 0usize;
         let mut failed: Option<String> = None;
         // warm up: neighbor discovery in both directions with a tiny datagram exchange (not part of the scenario)
         {
@@ -136,6 +226,14 @@ pub fn replay(args: &Args) {
                 match poll(&mut b, now, std::mem::take(&mut fa)) {
                     Ok(o) => fb = o,
                     Err(m) => failed = Some(m),
+                }
+                // (the neighbour solicitations and advertisements of the warm-up are read for C10)
+                for f in fa.iter().chain(fb.iter()) {
+                    maxframe = maxframe.max(f.len());
+                    if let Some(ok) = ndisc_options_ok(f) {
+                        nd_seen += 1;
+                        nd_bad += if ok { 0 } else { 1 };
+                    }
                 }
             }
             while b.sockets.get_mut::<udp::Socket>(b.udp).recv().is_ok() {}
@@ -202,6 +300,10 @@ pub fn replay(args: &Args) {
                 };
                 for f in &out {
                     maxframe = maxframe.max(f.len());
+                    if let Some(ok) = ndisc_options_ok(f) {
+                        nd_seen += 1;
+                        nd_bad += if ok { 0 } else { 1 };
+                    }
                 }
                 // group: fragments accumulate until a non-fragment or an idle poll; then the scenario's order is applied
                 let mut deliver: Vec<Vec<u8>> = vec![];
@@ -227,6 +329,10 @@ pub fn replay(args: &Args) {
                     Ok(o) => {
                         for f in &o {
                             maxframe = maxframe.max(f.len());
+                            if let Some(ok) = ndisc_options_ok(f) {
+                                nd_seen += 1;
+                                nd_bad += if ok { 0 } else { 1 };
+                            }
                         }
                         back = o;
                     }
@@ -273,7 +379,7 @@ pub fn replay(args: &Args) {
         }
         // for ICMP the reply's source is B; for UDP/TCP the datagram's source is A
         let src = if upper == "icmp" { b.addr.to_string() } else { a.addr.to_string() };
-        t.ev(json!({"ev":"scn","k":k,"s":s,"sport":sport,"dport":dport,"src":src,"accepted":accepted,"got":got,"maxframe":maxframe,"nfrag_first":nfrag_first}));
+        t.ev(json!({"ev":"scn","k":k,"s":s,"sport":sport,"dport":dport,"src":src,"accepted":accepted,"got":got,"maxframe":maxframe,"nfrag_first":nfrag_first,"nd_seen":nd_seen,"nd_bad":nd_bad}));
     }
     println!("{}", json!({"runs": 1, "events": t.finish()}));
 }
@@ -328,6 +434,9 @@ fn iphc_case(k: usize, s: &Value) -> Value {
         "mc-8" => Ipv6Address::new(0xff02, 0, 0, 0, 0, 0, 0, 0x00fb),
         "mc-32" => Ipv6Address::new(0xff05, 0, 0, 0, 0, 0, 0x0012, 0x3456),
         "mc-48" => Ipv6Address::new(0xff1e, 0, 0, 0, 0, 0x00ab, 0xcdef, 0x1234),
+        // near misses of the short forms: flags set on a link-local group with a one-octet id; one octet too many for the 32-bit form
+        "mc-8f" => Ipv6Address::new(0xff12, 0, 0, 0, 0, 0, 0, 0x0042),
+        "mc-32f" => Ipv6Address::new(0xff05, 0, 0, 0, 0, 0x00ab, 0x0012, 0x3456),
         _ => Ipv6Address::new(0xff02, 0, 0, 0x1, 0, 0x1, 0xff00, 0x1234),
     };
     let src = addr(s["s"].as_str().unwrap(), ext_s, [0x12, 0x34], 1);
